@@ -19,19 +19,29 @@ pub(crate) fn source_file(p: &mut Parser) {
     p.finish_node();
 }
 
-fn delimited<F>(p: &mut Parser, bra: TokenKind, ket: TokenKind, delim: TokenKind, mut parser: F)
+/// Returns whether at least one element was parsed.
+fn delimited<F>(
+    p: &mut Parser,
+    bra: TokenKind,
+    ket: TokenKind,
+    delim: TokenKind,
+    mut parser: F,
+) -> bool
 where
     F: FnMut(&mut Parser<'_>),
 {
+    let mut has_element = false;
     p.expect(bra);
     while !p.at(ket) && !p.eof() {
         parser(p);
+        has_element = true;
 
         if !p.eat_if(delim) {
             break;
         }
     }
     p.expect(ket);
+    has_element
 }
 
 #[cfg(test)]
